@@ -27,6 +27,7 @@ readname_loop(char *packet, int packetlen, char **src, char *dst, size_t length,
 	char *dummy;
 	char *s;
 	char *d;
+	char *end;
 	int len;
 	int offset;
 	char c;
@@ -37,13 +38,18 @@ readname_loop(char *packet, int packetlen, char **src, char *dst, size_t length,
 	len = 0;
 	s = *src;
 	d = dst;
-	while(*s && len < length - 2) {
+	/* never read past the received packet: the buffer behind it holds
+	   whatever earlier, longer packets left there */
+	end = packet + packetlen;
+	while(s < end && *s && len < length - 2) {
 		c = *s++;
 
 		/* is this a compressed label? */
 		if ((c & 0xc0) == 0xc0) {
+			if (s >= end)
+				break; /* Truncated pointer */
 			offset = (((s[-1] & 0x3f) << 8) | (s[0] & 0xff));
-			if (offset > packetlen) {
+			if (offset >= packetlen) {
 				if (len == 0) {
 					/* Bad jump first in packet */
 					return 0;
@@ -57,7 +63,7 @@ readname_loop(char *packet, int packetlen, char **src, char *dst, size_t length,
 			goto end;
 		}
 
-		while(c && len < length - 1) {
+		while(c && len < length - 1 && s < end) {
 			*d++ = *s++;
 			len++;
 
@@ -68,7 +74,7 @@ readname_loop(char *packet, int packetlen, char **src, char *dst, size_t length,
 			break; /* We used up all space */
 		}
 
-		if (*s != 0) {
+		if (s < end && *s != 0) {
 			*d++ = '.';
 			len++;
 		}
